@@ -10,3 +10,5 @@ import WrglModel.Props.C13
 #print axioms Wrgl.C13_commit_prefix_consistent
 #print axioms Wrgl.C13_receive_prefix_consistent
 #print axioms Wrgl.C13_table_first_is_unsafe
+#print axioms Wrgl.C13_receive_any_order_parents
+#print axioms Wrgl.C13_unchecked_receive_unsafe
